@@ -58,10 +58,11 @@ extern void uv_post(int op, const volatile void *addr, unsigned int sz,
 #undef uatomic_load_mo
 #define uatomic_load_mo(addr, mo)						\
 	__extension__ ({							\
-		uv_pre(UV_LD, (addr), sizeof(*(addr)), (mo), __FILE__, __LINE__); \
-		__typeof__(*(addr)) _uv_v = (__typeof__(*(addr)))		\
-			uv_do_load((addr), sizeof(*(addr)), (mo));		\
-		uv_post(UV_LD, (addr), sizeof(*(addr)), 0, 0,			\
+		__typeof__(&*(addr)) _uv_a = (addr);				\
+		uv_pre(UV_LD, _uv_a, sizeof(*_uv_a), (mo), __FILE__, __LINE__);	\
+		__typeof__(*_uv_a) _uv_v = (__typeof__(*_uv_a))		\
+			uv_do_load(_uv_a, sizeof(*_uv_a), (mo));		\
+		uv_post(UV_LD, _uv_a, sizeof(*_uv_a), 0, 0,			\
 			(unsigned long) _uv_v, (mo), __FILE__, __LINE__);	\
 		cmm_seq_cst_fence_after_atomic(mo);				\
 		_uv_v;								\
@@ -70,10 +71,11 @@ extern void uv_post(int op, const volatile void *addr, unsigned int sz,
 #undef uatomic_store_mo
 #define uatomic_store_mo(addr, v, mo)						\
 	do {									\
-		__typeof__(*(addr)) _uv_sv = (__typeof__(*(addr))) (v);	\
-		uv_pre(UV_ST, (addr), sizeof(*(addr)), (mo), __FILE__, __LINE__); \
-		uv_do_store((addr), sizeof(*(addr)), (unsigned long) _uv_sv, (mo)); \
-		uv_post(UV_ST, (addr), sizeof(*(addr)), (unsigned long) _uv_sv,	\
+		__typeof__(&*(addr)) _uv_a = (addr);				\
+		__typeof__(*_uv_a) _uv_sv = (__typeof__(*_uv_a)) (v);		\
+		uv_pre(UV_ST, _uv_a, sizeof(*_uv_a), (mo), __FILE__, __LINE__);	\
+		uv_do_store(_uv_a, sizeof(*_uv_a), (unsigned long) _uv_sv, (mo)); \
+		uv_post(UV_ST, _uv_a, sizeof(*_uv_a), (unsigned long) _uv_sv,	\
 			0, 0, (mo), __FILE__, __LINE__);			\
 		cmm_seq_cst_fence_after_atomic(mo);				\
 	} while (0)
@@ -81,10 +83,11 @@ extern void uv_post(int op, const volatile void *addr, unsigned int sz,
 #undef uatomic_xchg_mo
 #define uatomic_xchg_mo(addr, v, mo)						\
 	__extension__ ({							\
-		__typeof__(*(addr)) _uv_nv = (__typeof__(*(addr))) (v);	\
-		uv_pre(UV_XCHG, (addr), sizeof(*(addr)), (mo), __FILE__, __LINE__); \
-		__typeof__(*(addr)) _uv_r = UATOMIC_COMPAT(xchg(addr, _uv_nv));	\
-		uv_post(UV_XCHG, (addr), sizeof(*(addr)), (unsigned long) _uv_nv, \
+		__typeof__(&*(addr)) _uv_a = (addr);				\
+		__typeof__(*_uv_a) _uv_nv = (__typeof__(*_uv_a)) (v);		\
+		uv_pre(UV_XCHG, _uv_a, sizeof(*_uv_a), (mo), __FILE__, __LINE__); \
+		__typeof__(*_uv_a) _uv_r = UATOMIC_COMPAT(xchg(_uv_a, _uv_nv));	\
+		uv_post(UV_XCHG, _uv_a, sizeof(*_uv_a), (unsigned long) _uv_nv, \
 			0, (unsigned long) _uv_r, (mo), __FILE__, __LINE__);	\
 		_uv_r;								\
 	})
@@ -92,12 +95,13 @@ extern void uv_post(int op, const volatile void *addr, unsigned int sz,
 #undef uatomic_cmpxchg_mo
 #define uatomic_cmpxchg_mo(addr, old, _new, mos, mof)				\
 	__extension__ ({							\
-		__typeof__(*(addr)) _uv_o = (__typeof__(*(addr))) (old);	\
-		__typeof__(*(addr)) _uv_n = (__typeof__(*(addr))) (_new);	\
-		uv_pre(UV_CAS, (addr), sizeof(*(addr)), (mos), __FILE__, __LINE__); \
-		__typeof__(*(addr)) _uv_r =					\
-			UATOMIC_COMPAT(cmpxchg(addr, _uv_o, _uv_n));		\
-		uv_post(UV_CAS, (addr), sizeof(*(addr)), (unsigned long) _uv_o,	\
+		__typeof__(&*(addr)) _uv_a = (addr);				\
+		__typeof__(*_uv_a) _uv_o = (__typeof__(*_uv_a)) (old);		\
+		__typeof__(*_uv_a) _uv_n = (__typeof__(*_uv_a)) (_new);	\
+		uv_pre(UV_CAS, _uv_a, sizeof(*_uv_a), (mos), __FILE__, __LINE__); \
+		__typeof__(*_uv_a) _uv_r =					\
+			UATOMIC_COMPAT(cmpxchg(_uv_a, _uv_o, _uv_n));		\
+		uv_post(UV_CAS, _uv_a, sizeof(*_uv_a), (unsigned long) _uv_o,	\
 			(unsigned long) _uv_n, (unsigned long) _uv_r, (mos),	\
 			__FILE__, __LINE__);					\
 		_uv_r;								\
@@ -106,31 +110,35 @@ extern void uv_post(int op, const volatile void *addr, unsigned int sz,
 #undef uatomic_add_return_mo
 #define uatomic_add_return_mo(addr, v, mo)					\
 	__extension__ ({							\
-		uv_pre(UV_ADDRET, (addr), sizeof(*(addr)), (mo), __FILE__, __LINE__); \
-		__typeof__(*(addr)) _uv_r = UATOMIC_COMPAT(add_return(addr, v)); \
-		uv_post(UV_ADDRET, (addr), sizeof(*(addr)), (unsigned long) (v), \
+		__typeof__(&*(addr)) _uv_a = (addr);				\
+		__typeof__(*_uv_a) _uv_av = (__typeof__(*_uv_a)) (v);		\
+		uv_pre(UV_ADDRET, _uv_a, sizeof(*_uv_a), (mo), __FILE__, __LINE__); \
+		__typeof__(*_uv_a) _uv_r = UATOMIC_COMPAT(add_return(_uv_a, _uv_av)); \
+		uv_post(UV_ADDRET, _uv_a, sizeof(*_uv_a), (unsigned long) _uv_av, \
 			0, (unsigned long) _uv_r, (mo), __FILE__, __LINE__);	\
 		_uv_r;								\
 	})
 
 #define _uv_void_rmw(OP, insn, addr, v, mo)					\
 	do {									\
-		uv_pre(OP, (addr), sizeof(*(addr)), (mo), __FILE__, __LINE__);	\
+		__typeof__(&*(addr)) _uv_a = (addr);				\
+		__typeof__(*_uv_a) _uv_av = (__typeof__(*_uv_a)) (v);		\
+		uv_pre(OP, _uv_a, sizeof(*_uv_a), (mo), __FILE__, __LINE__);	\
 		UATOMIC_COMPAT(insn);						\
-		uv_post(OP, (addr), sizeof(*(addr)), (unsigned long) (v), 0,	\
-			(unsigned long) *(addr), (mo), __FILE__, __LINE__);	\
+		uv_post(OP, _uv_a, sizeof(*_uv_a), (unsigned long) _uv_av, 0,	\
+			(unsigned long) *_uv_a, (mo), __FILE__, __LINE__);	\
 	} while (0)
 
 #undef uatomic_or_mo
-#define uatomic_or_mo(addr, v, mo)	_uv_void_rmw(UV_OR, or(addr, v), addr, v, mo)
+#define uatomic_or_mo(addr, v, mo)	_uv_void_rmw(UV_OR, or(_uv_a, _uv_av), addr, v, mo)
 #undef uatomic_and_mo
-#define uatomic_and_mo(addr, v, mo)	_uv_void_rmw(UV_AND, and(addr, v), addr, v, mo)
+#define uatomic_and_mo(addr, v, mo)	_uv_void_rmw(UV_AND, and(_uv_a, _uv_av), addr, v, mo)
 #undef uatomic_add_mo
-#define uatomic_add_mo(addr, v, mo)	_uv_void_rmw(UV_ADD, add(addr, v), addr, v, mo)
+#define uatomic_add_mo(addr, v, mo)	_uv_void_rmw(UV_ADD, add(_uv_a, _uv_av), addr, v, mo)
 #undef uatomic_inc_mo
-#define uatomic_inc_mo(addr, mo)	_uv_void_rmw(UV_INC, inc(addr), addr, 1, mo)
+#define uatomic_inc_mo(addr, mo)	_uv_void_rmw(UV_INC, inc(_uv_a), addr, 1, mo)
 #undef uatomic_dec_mo
-#define uatomic_dec_mo(addr, mo)	_uv_void_rmw(UV_DEC, dec(addr), addr, 1, mo)
+#define uatomic_dec_mo(addr, mo)	_uv_void_rmw(UV_DEC, dec(_uv_a), addr, 1, mo)
 
 #endif /* part A */
 
